@@ -91,6 +91,12 @@ type Service struct {
 	// docs/design-documents/20260706-forceful-stop-test-determinism.md.
 	terminalErrors *csync.Map[string, error]
 
+	// publishMu serializes the writers of runningPipelines - the publication in
+	// runPipeline and the compare-and-delete in its cleanup - so a departing
+	// run can never erase the entry of a newer run (ported from pkg/lifecycle,
+	// #2806). Never held across I/O.
+	publishMu sync.Mutex
+
 	isGracefulShutdown atomic.Bool
 	metricsDisabled    bool
 }
@@ -1669,8 +1675,14 @@ func (s *Service) runPipeline(rp *runnablePipeline) error {
 		// delete leaves no window where neither is observable).
 		s.terminalErrors.Set(rp.pipeline.ID, err)
 
-		// confirmed that all nodes stopped, we can now remove the pipeline from the running pipelines
-		s.runningPipelines.Delete(rp.pipeline.ID)
+		// confirmed that all nodes stopped, we can now remove the pipeline from
+		// the running pipelines - but only if the entry still is THIS run. Once
+		// the terminal status above is visible a new Start is admitted, and its
+		// publication can land before this point: a blind Delete(id) would then
+		// erase the NEW run's entry and orphan a live run (Stop/StopAndWait
+		// report "not running", WaitPipeline returns at once, status stays
+		// Running). Same compare-and-delete as pkg/lifecycle (#2806).
+		s.deleteRunningPipelineIfCurrent(rp.pipeline.ID, rp)
 
 		s.notify(rp.pipeline.ID, err)
 		return err
@@ -1714,7 +1726,9 @@ func (s *Service) runPipeline(rp *runnablePipeline) error {
 	//   - that cleanup goroutine blocks on startupDone (closed below), so it
 	//     can never Delete before this Set, which would strand a live run
 	//     outside the map.
+	s.publishMu.Lock()
 	s.runningPipelines.Set(rp.pipeline.ID, rp)
+	s.publishMu.Unlock()
 
 	// It's now safe to make the potentially slow UpdateStatus call and then
 	// release the cleanup goroutine to make its own. close(startupDone)
@@ -1831,6 +1845,17 @@ func (s *Service) StartWithBackoff(ctx context.Context, rp *runnablePipeline) er
 	}
 
 	return s.Start(ctx, rp.pipeline.ID)
+}
+
+// deleteRunningPipelineIfCurrent removes id's entry from runningPipelines only
+// if it still holds exactly rp (compare-and-delete under publishMu).
+func (s *Service) deleteRunningPipelineIfCurrent(id string, rp *runnablePipeline) {
+	s.publishMu.Lock()
+	defer s.publishMu.Unlock()
+
+	if current, ok := s.runningPipelines.Get(id); ok && current == rp {
+		s.runningPipelines.Delete(id)
+	}
 }
 
 // notify notifies all registered FailureHandlers about an error.
